@@ -349,7 +349,17 @@ void Image::load(FILE* f) {
     }
 
     bool reverse_row_order = header.info_header.height < 0;
-    fseek(f, header.file_header.data_offset, SEEK_SET);
+    if (fseek(f, header.file_header.data_offset, SEEK_SET)) {
+      // The stream isn't seekable (e.g. a pipe), so skip forward to the pixel
+      // data by reading instead
+      size_t bytes_read = sizeof(header.file_header) + header.info_header.header_size;
+      while (bytes_read < header.file_header.data_offset) {
+        uint8_t skip_data[0x100];
+        size_t skip_bytes = min<size_t>(header.file_header.data_offset - bytes_read, sizeof(skip_data));
+        freadx(f, skip_data, skip_bytes);
+        bytes_read += skip_bytes;
+      }
+    }
     bool has_alpha;
     int32_t w = header.info_header.width;
     int32_t h = header.info_header.height * (reverse_row_order ? -1 : 1);
